@@ -238,6 +238,35 @@ def run(ck: Check):
             ck.case(dict(detector="STEPD", config=cfg, n=n, input_type=ty.__name__), nontrivial=any(o[0] or o[1] for o in out), key=repr((cfg, xs, ty.__name__)))
             ck.count("stepd_typed_streams")
             stepd_monitor(cfg, xs, out)
+    # STEPD with a tiny accepted alpha_d and statistics between 8.3 and 8.8 standard deviations (no draw from the
+    # generator): the one-sided p-value there is 1e-17 .. 1e-18 -- representable, but below the spacing of doubles near 1, so
+    # it must come from the survival function itself (1 - cdf gives 0). Searched over the counts, then laid out as a stream.
+    found = 0
+    mn = 30
+    for n_o in range(60, 260, 7):
+        for c_w in range(0, 12):
+            c_o = n_o  # every earlier prediction correct
+            n = n_o + mn
+            p_hat = (c_w + c_o) / n
+            inv = 1 / n_o + 1 / mn
+            T = (abs(c_o / n_o - c_w / mn) - 0.5 * inv) / math.sqrt(p_hat * (1 - p_hat) * inv)
+            pv = float(norm.sf(T))
+            if not (8.3 < T < 8.8):
+                continue
+            for alpha_d in (pv / 7.0, pv * 5.0):
+                cfg = dict(alpha_d=alpha_d, alpha_w=max(alpha_d * 1e3, 1e-12), min_num_instances=mn)
+                xs = [1] * n_o + [1] * c_w + [0] * (mn - c_w)
+                out, exc, _ = run_impl(SP, cfg, xs)
+                if exc is not None:
+                    ck.violation(dict(clause="raises", detector="STEPD", error=type(exc).__name__, regime="tiny-alpha"), dict(config=cfg, n=len(xs), error=repr(exc)))
+                    continue
+                ck.case(dict(detector="STEPD", config=cfg, n=len(xs), kind="tiny-alpha", statistic=T, p_value=pv), nontrivial=True, key=repr(("tiny-alpha", cfg, n_o, c_w)))
+                ck.count("stepd_tiny_alpha_cases")
+                stepd_monitor(cfg, xs, out)
+                found += 1
+            break
+        if found >= (6 if not thorough else 24):
+            break
     models = run_models("C06", cases, shard=30)
     corr_compare(ck, "C06", cases, impl, models)
 
